@@ -14,10 +14,13 @@ DEVIATIONS = {
 RULE = ("TLC enumerates (scenario, point) states: one-grid scenarios (rows, cols in 2..4, square and non-square cells, 1/2/3 bands, "
         "Gravsoft angular, Gravsoft projected, NTv2 both byte orders) on the eighth-cell lattice from two cells outside; grids= lists of "
         "up to 3 entries over three overlapping grids with @optional (present / missing), required-missing and @null entries in every "
-        "position; NTv2 trees of up to 4 sub-grids (child, siblings, grandchild, two roots, a consistent densification) in permuted file "
-        "orders. Invariants: node reproduction, corner range, equality of one-sided evaluations on cell edges, linear continuation through "
+        "position - among them the lists whose every grid is optional and missing, with and without @null, for every operator; three grids "
+        "sharing a border and a corner in every order; NTv2 trees of up to 4 sub-grids (child, siblings, overlapping siblings, grandchild, "
+        "two roots, a consistent densification) in permuted file orders; one-grid files whose header is spelled with exchanged bounds "
+        "(south > north, west > east, both; Gravsoft and NTv2): refused, or the grid of one reading of the header at every point. Invariants: node reproduction, corner range, equality of one-sided evaluations on cell edges, linear continuation through "
         "the margin, first hit / first within margin / null / none, deepest sub-grid independent of file order, continuity across consistent "
-        "sub-grid borders, operator conventions. Every scenario is encoded by the harness, decoded by the real readers and queried through "
+        "sub-grid borders, operator conventions, no grid left => every point outside, node reproduction under every reading of a spelled "
+        "header, the admissible ends of a chain of overlapping sub-grids. Every scenario is encoded by the harness, decoded by the real readers and queried through "
         "Grid::contains / at, grids_at and gridshift / deformation / deflection in a harness Context; values compared to 1e-6 of the largest "
         "node value (f32 storage) for angular grids, exactly for projected grids. Non-trivial = distinct (scenario, operator, point) whose "
         "expected result is a grid-derived correction, plus scenarios whose instantiation must be refused.")
@@ -26,8 +29,11 @@ ASSUMPTIONS = [
     "points exactly on the outer edge of the half-cell margin are not generated (lattice in eighths of a cell)",
     "NTv2: points on the northern / eastern border of a sub-grid (and of a root when another root is within reach) are not compared unless parent and child agree there ('upper border belongs to the neighbour' is only in a code comment)",
     "@null is documented only as the last entry: lists where 'null ends the list' and 'null is a flag' give different answers are not compared",
-    "a grids= list whose every grid is optional and missing, without @null (no grid at all), is not compared (the code treats it as a no-op)",
-    "deflection: sign convention of (xi, eta) is not documented: magnitudes and order only, 1e-3 relative (the operator is documented as a coarse estimate); @null is not generated for deflection",
+    "a grids= list whose every grid is optional and missing: the documentation of `grids` says only that such grids do not block instantiation; no grid is left, so every point is outside the grid coverage: it fails, or passes unchanged with @null (compared for gridshift, deformation, deflection)",
+    "deflection: sign convention of (xi, eta) is not documented: magnitudes and order only, 1e-3 relative (the operator is documented as a coarse estimate)",
+    "a header with exchanged bounds may be refused; if it is decoded, the grid must be the file under one of the readings (bounds as an unordered pair, or scan from the bound written first) at every lattice point",
+    "overlapping NTv2 siblings (forbidden by the NTv2 specification): any sub-grid that contains the point, is reached through containing ancestors and has no child containing it is admissible; only Grid::at is compared there, at points off every northern / eastern border",
+    "an operator given a grid of another dimensionality than documented (gridshift with 3 bands, deformation with 1 or 2, deflection with 2 or 3): refusal or any result is admissible, only a panic is reported",
     "inverse 2-D grid shift: checked as forward(inverse(p)) = p to 1e-11 rad and to first order against the specification's value, at points strictly inside a cell and a selection region",
     "deformation: compared at points strictly inside a selection region (the operator recomputes the geographic position from cartesian coordinates); ENU -> XYZ rotation by the textbook formula in the harness",
     "after a failure only 'count excludes the tuple' and 'the tuple carries NaN' are compared (C10's abstraction)",
@@ -57,7 +63,12 @@ def classify(res, fails, by_id):
         if dev and dev in known:
             res.add_known(known[dev]["id"], known[dev].get("what", what))
             continue
-        sig = what if dev else "%s|%s|%s|%s" % (what, sc.get("name"), sc.get("kind"), sc.get("fmt"))
+        if what.startswith("no_grid_left_not_failed"):
+            sig = what
+        elif what == "spelled_header_matches_no_reading":
+            sig = "%s|%s" % (what, sc.get("fmt"))
+        else:
+            sig = what if dev else "%s|%s|%s|%s" % (what, sc.get("name"), sc.get("kind"), sc.get("fmt"))
         res.add_violation({"suite": "grid", "what": what, "def": (f.get("p") or {}).get("def") or f.get("def"),
                            "deviation": dev, "detail": f, "behaviour": by_id.get(f.get("sc")), "signature": sig,
                            "expected": f.get("expected"), "observed": f.get("observed")})
@@ -77,6 +88,17 @@ def run(tier, seed):
     res.extra["points_compared"] = summary["compared"]
     res.extra["points_not_compared"] = summary["not_compared"]
     res.extra["mismatches_by_class"] = summary["per_key"]
+    for k in ("spelled_rejected", "spelled_read", "spelled_failed", "empty_list_compared", "oneof_compared", "cross_calls"):
+        res.extra[k] = summary[k]
+    # vacuity guards of the widened parts of the catalogue
+    spelled = [x for x in recs if x.get("spelled")]
+    if not spelled or any(len(x["alts"]) < 2 for x in spelled):
+        raise vlib.ToolError("vacuous: no scenario with a spelled header (or one without alternative readings)")
+    if summary["spelled_rejected"] + sum(summary["spelled_read"].values()) + summary["spelled_failed"] != len(spelled):
+        raise vlib.ToolError("spelled headers were not all decided")
+    if summary["empty_list_compared"] == 0 or summary["oneof_compared"] == 0 or summary["cross_calls"] == 0:
+        raise vlib.ToolError("vacuous: empty lists / overlapping siblings / cross-dimensional operator calls were not exercised: %s" %
+                             {k: summary[k] for k in ("empty_list_compared", "oneof_compared", "cross_calls")})
     res.exhaustive = True
     res.rule = RULE
     res.assumptions = ASSUMPTIONS
